@@ -698,6 +698,20 @@ func furtherDIBValues() []Val {
 	return out
 }
 
+// searchResBlockValues: a SearchRes whose description block carries further blocks. The library
+// has no encoder for them (they are dropped); whatever it does with them, C15's clauses - size ==
+// octets written, every octet determined, nothing beyond - must hold.
+func searchResBlockValues() []Val {
+	var out []Val
+	for _, d := range furtherDIBValues() {
+		v := withDevice(baseSvc("SearchRes"))
+		v.H1 = Host{Proto: 1, Addr: [4]byte{10, 0, 0, 9}, Port: 3671}
+		v.Fams, v.Blocks = d.Fams, d.Blocks
+		out = append(out, v)
+	}
+	return out
+}
+
 func nameLengthValues(bases []Val, lo, hi int) []Val {
 	var out []Val
 	for _, b := range bases {
